@@ -674,7 +674,8 @@ pub fn render(p: &Program, lay: &Layout, rng: &mut Rng) -> Rendered {
                             text.push(' ');
                         } else if ti == 1 {
                             // after the mnemonic
-                            text.push_str(rng.s(&[" ", "\t", "  ", " ", ", "]));
+                            // (a colon is white space in lace's grammar wherever it stands, also glued to a mnemonic)
+                            text.push_str(rng.s(&[" ", "\t", "  ", " ", ", ", " ", ": ", ":"]));
                         } else {
                             text.push_str(rng.s(SEPS));
                         }
@@ -689,7 +690,7 @@ pub fn render(p: &Program, lay: &Layout, rng: &mut Rng) -> Rendered {
             text.push_str(rng.s(&[" ", "\t", "  "]));
             text.push_str(comment(rng));
         } else if w && rng.chance(1, 5) {
-            text.push_str(rng.s(&[" ", "\t", ",", " :"]));
+            text.push_str(rng.s(&[" ", "\t", ",", " :", ":"]));
         }
         text.push_str(nl);
     }
@@ -743,6 +744,8 @@ const LABEL_PARTS: &[&str] = &[
     "loop", "Loop", "LOOP", "done", "a", "b", "Z", "_t", "data", "msg", "Msg", "fn_1", "ptr", "top",
     "Halt_", "adder", "br1", "st0re", "in_", "outp", "k", "L", "end_", "Ret0", "go", "table", "q9",
     "_", "__x", "yx", "tmp", "val", "cnt", "sub", "Sub", "string", "p", "w1", "again", "skip",
+    // names other assemblers give to registers or reserve: plain labels here, with or without any feature flag
+    "sp", "SP", "Sp", "fp", "lr", "pc", "PC", "psr", "cc", "ra", "zero", "at", "gp", "stack", "Stack", "main", "start", "org", "equ", "byte", "word", "include", "macro",
 ];
 
 pub fn gen_label(rng: &mut Rng, taken: &[String]) -> String {
